@@ -27,3 +27,97 @@ def run(exe, seed, mode, params, log=None, timeout=120, env=None):
 
 
 MODES = ["rand:0", "rand:50", "rand:90", "rand:98", "pct:2", "pct:3"]
+
+
+# ---------------------------------------------------------------------------------------------
+# generic T3 campaign: programs x schedules, monitors + model validation, failing-input search
+# ---------------------------------------------------------------------------------------------
+import collections, json
+from . import t3 as _t3
+
+RC_TEXT = {1: "monitor failure", 97: "deadlock (every thread blocked or idle-polling; nobody can make progress)",
+           98: "livelock (step budget exhausted)", -999: "wall-clock timeout"}
+
+
+def campaign(res, broken, tier, prop, scenario, sources, param_gen, validate, sizes=None):
+    """param_gen(rng) -> params list; validate(log: t3.Log, params) -> (rejects:[{...}], transitions:set, nlines:int).
+    Explores programs x schedules.  A monitor failure / deadlock / crash is a concrete violation (replay = seed,
+    mode, params).  A model rejection breaks the T3 correspondence: the exploration then continues without
+    validation (search budget) looking for a concrete failure."""
+    sizes = sizes or {"quick": (14, 3), "thorough": (150, 8), "search": (120, 6)}
+    exe = build(scenario, sources)
+    rng = C.Rng(res.seed * 104729 + sum(map(ord, prop)))
+    outcomes = collections.Counter()
+    transitions = set()
+    stats = {"traces": 0, "events": 0, "runs": 0}
+    logdir = os.path.join(C.BUILD, "logs")
+    os.makedirs(logdir, exist_ok=True)
+    log = os.path.join(logdir, "%s-%d.log" % (prop, os.getpid()))
+
+    def sweep(nprog, nsched, do_validate):
+        for p in range(nprog):
+            params = param_gen(rng)
+            pseed = 1 + rng.below(10**6)
+            for k in range(nsched):
+                mode = MODES[(p + k) % len(MODES)]
+                sseed = pseed * 1000 + k
+                rc, err, _ = run(exe, sseed, mode, params, log=log, timeout=180)
+                outcomes[rc] += 1
+                stats["runs"] += 1
+                rep = {"scenario": scenario, "params": params, "seed": sseed, "mode": mode,
+                       "cmd": "%s %d %s <log> %s" % (exe, sseed, mode, " ".join(map(str, params)))}
+                if rc != 0:
+                    last = err.strip().split("\n")[-1] if err.strip() else ""
+                    rep["stderr"] = err[-600:]
+                    return ("concrete", "%s: %s" % (RC_TEXT.get(rc, "scenario crashed rc=%d" % rc), last), rep)
+                if do_validate:
+                    lg = _t3.Log(log)
+                    rejects, trans, nlines = validate(lg, params)
+                    stats["traces"] += 1
+                    stats["events"] += nlines
+                    transitions.update(trans)
+                    if stats["traces"] <= 2:
+                        res.sample({"params": params, "seed": sseed, "mode": mode, "log_head": [e for e in lg.events[:14]]})
+                    if rejects:
+                        rep["rejects"] = rejects
+                        return ("reject", rejects[0].get("reject", "model rejected trace"), rep)
+        return None
+
+    r = None
+    if broken:
+        r = sweep(*sizes["search"], False)
+    else:
+        r = sweep(*sizes[tier], True)
+        if r and r[0] == "reject":
+            broken.append({"kind": "T3-correspondence", "what": r[1], "replay": r[2]})
+            r = sweep(*sizes["search"], False)
+    if r and r[0] == "concrete":
+        res.violation(r[1], r[2])
+    res.add_cov(programs_and_schedules=sizes["search" if broken else tier], runs=stats["runs"],
+                outcomes={str(k): v for k, v in outcomes.items()}, traces_validated_against_impl=stats["traces"],
+                projected_events=stats["events"], model_transitions_exercised=len(transitions),
+                model_transitions=sorted(transitions))
+    try:
+        os.remove(log)
+    except OSError:
+        pass
+    return exe
+
+
+def replay(scenario, sources, path, validate=None):
+    rep = json.load(open(path))
+    if "seed" not in rep:
+        print("no concrete failing input in this replay; broken obligations:")
+        print(json.dumps(rep.get("broken", rep), indent=1)[:3000])
+        return 1
+    exe = build(scenario, sources)
+    log = os.path.join(C.BUILD, "logs", "replay-%d.log" % os.getpid())
+    os.makedirs(os.path.dirname(log), exist_ok=True)
+    rc, err, _ = run(exe, rep["seed"], rep["mode"], rep["params"], log=log, timeout=180)
+    print("scenario rc=%d (%s) %s log=%s" % (rc, RC_TEXT.get(rc, "ok" if rc == 0 else "crash"), err.strip()[-300:], log))
+    if rc == 0 and validate:
+        rejects, _, _ = validate(_t3.Log(log), rep["params"])
+        for r in rejects:
+            print("model rejects:", r)
+        return 1 if rejects else 0
+    return 1 if rc else 0
